@@ -506,6 +506,7 @@ type Trie struct {
 
 type trieNode struct {
 	op   Op
+	res  Res
 	kids map[string]*trieNode
 	ord  []string
 }
@@ -515,18 +516,29 @@ func NewTrie() *Trie {
 	return &Trie{root: &trieNode{op: Op{N: "root", A: []int{}}, kids: map[string]*trieNode{}}, n: 1}
 }
 
+// NewResTrie is NewTrie; use InsertR to give every event a result.
+func NewResTrie() *Trie { return NewTrie() }
+
 // Insert adds one sequence; it reports whether the sequence was new.
-func (t *Trie) Insert(seq []Op) bool {
+func (t *Trie) Insert(seq []Op) bool { return t.InsertR(seq, nil) }
+
+// InsertR adds one sequence of events with their results (rs may be nil).
+func (t *Trie) InsertR(seq []Op, rs []Res) bool {
 	cur, fresh := t.root, false
-	for _, o := range seq {
+	for i, o := range seq {
 		if o.A == nil {
 			o.A = []int{}
 		}
-		b, _ := json.Marshal(o)
+		r := Res{Ok: true, S: []int{}}
+		if rs != nil {
+			r = rs[i]
+			r.S = nz(r.S)
+		}
+		b, _ := json.Marshal([]any{o, r})
 		k := string(b)
 		nx, ok := cur.kids[k]
 		if !ok {
-			nx = &trieNode{op: o, kids: map[string]*trieNode{}}
+			nx = &trieNode{op: o, res: r, kids: map[string]*trieNode{}}
 			cur.kids[k] = nx
 			cur.ord = append(cur.ord, k)
 			t.n++
@@ -565,7 +577,10 @@ func (t *Trie) Write(file string) error {
 				next++
 				nl = append(nl, nd.kids[k])
 			}
-			if err := enc.Encode(Node{Op: nd.op, Res: Res{Ok: true, S: []int{}}, Proj: 0, Kids: kids}); err != nil {
+			if nd.res.S == nil {
+				nd.res.S = []int{}
+			}
+			if err := enc.Encode(Node{Op: nd.op, Res: nd.res, Proj: 0, Kids: kids}); err != nil {
 				return err
 			}
 		}
